@@ -8,6 +8,7 @@
 //! Exit codes: 0 held, 1 violation (with `VIOLATION property=C08 replay=<file>`), 2 harness error.
 
 mod gen;
+mod rustc_stage;
 mod tree;
 
 use gen::{Batch, Gen, History};
@@ -82,6 +83,8 @@ struct Cfg {
     replays: PathBuf,
     findings: PathBuf,
     jobs: usize,
+    repo: PathBuf,
+    target: PathBuf,
 }
 
 struct WorkerResult {
@@ -91,11 +94,27 @@ struct WorkerResult {
 
 /// Runs one worker process on a plan. The only clock in the harness is the watchdog here; it
 /// never influences a verdict other than turning a hang into a (re-checked) report.
+/// Process environments: a fresh process may come with any environment, and the outcome of a
+/// call must not depend on it. Profile 0 is empty; the others set variables a build tool or a
+/// shell would set, to different values.
+fn env_profile(k: usize) -> Vec<(&'static str, &'static str)> {
+    match k % 3 {
+        0 => vec![],
+        1 => vec![("CARGO_MANIFEST_DIR", "/nonexistent/profile-one"), ("HOME", "/nonexistent/home1"), ("TZ", "Pacific/Kiritimati"), ("LANG", "tr_TR.UTF-8"), ("LC_ALL", "tr_TR.UTF-8"), ("USER", "alice"), ("CARGO_PKG_NAME", "one"), ("OUT_DIR", "/nonexistent/out1"), ("TMPDIR", "/nonexistent/tmp1"), ("RUST_LOG", "trace")],
+        _ => vec![("CARGO_MANIFEST_DIR", "/nonexistent/profile-two"), ("HOME", "/"), ("TZ", "UTC"), ("LANG", "C"), ("USER", "bob"), ("CARGO_PKG_NAME", "two"), ("PWD", "/nonexistent/pwd"), ("TERM", "dumb"), ("NO_COLOR", "1"), ("SOURCE_DATE_EPOCH", "0")],
+    }
+}
+
 fn run_worker(bin: &Path, cwd: &Path, plan: &Value, timeout_s: u64) -> WorkerResult {
+    run_worker_env(bin, cwd, plan, timeout_s, 0)
+}
+
+fn run_worker_env(bin: &Path, cwd: &Path, plan: &Value, timeout_s: u64, profile: usize) -> WorkerResult {
     let mut child = match Command::new(bin)
         .arg("-")
         .current_dir(cwd)
         .env_clear()
+        .envs(env_profile(profile))
         .stdin(Stdio::piped())
         .stdout(Stdio::piped())
         .stderr(Stdio::piped())
@@ -162,9 +181,9 @@ struct Oracle<'a> {
 }
 
 impl<'a> Oracle<'a> {
-    fn single(&self, call: &Value) -> Out {
+    fn single(&self, call: &Value, profile: usize) -> Out {
         let plan = json!({"threads": [[call]], "schedule": {"kind": "none"}});
-        let r = run_worker(&self.cfg.plain, &self.cfg.tree_root, &plan, 120);
+        let r = run_worker_env(&self.cfg.plain, &self.cfg.tree_root, &plan, 120, profile);
         match (r.json, r.crash) {
             (Some(v), _) => Out::from_json(&v["outcomes"][0][0]),
             (None, Some(c)) => Out::Crash(c),
@@ -177,8 +196,9 @@ impl<'a> Oracle<'a> {
         if let Some(o) = self.memo.lock().unwrap().get(&key) {
             return o.clone();
         }
-        let a = self.single(call);
-        let b = self.single(call);
+        // two fresh processes with different environments
+        let a = self.single(call, 0);
+        let b = self.single(call, 1);
         self.evaluated.fetch_add(2, Ordering::Relaxed);
         let out = if a.same(&b) || (a.kind() == "crash" && b.kind() == "crash") {
             a
@@ -212,7 +232,7 @@ fn plan_of(h: &History, cfg: &Cfg, events: bool) -> Value {
         "threads": h.threads,
         "schedule": h.schedule,
         "faults": h.faults,
-        "max_steps": 5000,
+        "max_steps": 20000,
         "tree_prefix": format!("{}/", cfg.tree_root.display()),
         "events": events,
     })
@@ -231,7 +251,7 @@ fn run_and_check(h: &History, cfg: &Cfg, oracle: &Oracle, events: bool) -> RunRe
         cfg.hooked.as_ref().unwrap()
     };
     let plan = plan_of(h, cfg, events);
-    let r = run_worker(bin, &cfg.tree_root, &plan, 180);
+    let r = run_worker_env(bin, &cfg.tree_root, &plan, 180, 2);
     let mut violations = vec![];
     let Some(res) = r.json else {
         violations.push(Violation {
@@ -613,12 +633,14 @@ fn absorb(agg: &mut Agg, subseed: u64, h: &History, rep: &RunReport, oracle: &Or
         if basenames.values().any(|s| s.len() >= 2) {
             bump(&mut agg.probes, "runs_with_same_base_name_different_files", 1);
         }
-        if any_fail_inside {
-            // a valid call that *started* after a panicking release?
-            bump(&mut agg.probes, "runs_with_calls_after_a_poisoning_event", 1);
-        }
         if h.threads.len() >= 8 {
             bump(&mut agg.probes, "runs_with_8+_threads", 1);
+        }
+        if h.labels.iter().any(|l| l == "long") {
+            bump(&mut agg.probes, "long_histories_120_to_400_calls", 1);
+        }
+        if res["stats"]["poisoned_acquisitions"].as_u64().unwrap_or(0) > 0 {
+            bump(&mut agg.probes, "runs_with_lock_acquired_after_it_was_poisoned", 1);
         }
         let sig = format!(
             "{}|{}",
@@ -694,8 +716,10 @@ fn main() {
         replays: PathBuf::from(get("replays", "/verif/replays")),
         findings: PathBuf::from(get("findings", "/verif/known_findings.json")),
         jobs: simcore::env_usize("VERIF_JOBS", 16),
+        repo: PathBuf::from(get("repo", "/repo")),
+        target: PathBuf::from(get("target", "/verif/.target")),
     };
-    let repo = PathBuf::from(get("repo", "/repo"));
+    let repo = cfg.repo.clone();
     let started = Instant::now();
     println!("C08 seed={} tier={} seam={}", seed, tier, if cfg.hooked.is_some() { "hooked build" } else { "UNAVAILABLE (sequential histories on the guard-off build only)" });
     let with_big = tier == "thorough";
@@ -713,6 +737,23 @@ fn main() {
             eprintln!("harness error: bad replay file: {}", e);
             std::process::exit(2)
         });
+        if doc["flavour"] == "rustc-stage" {
+            let derives: Vec<rustc_stage::Derive> = doc["derives"].as_array().map(|a| a.iter().map(rustc_stage::Derive::from_json).collect()).unwrap_or_default();
+            let r = rustc_stage::run(&[derives], &cfg.work, &cfg.repo, &rustc_stage::target_dir(&cfg.target));
+            if let Some(e) = r.harness_error {
+                eprintln!("harness error: {}", e);
+                std::process::exit(2);
+            }
+            if r.violations.is_empty() {
+                println!("replay: no violation (every derive of the sequence has the diagnostics it has alone)");
+                std::process::exit(0);
+            }
+            for (class, detail, _) in &r.violations {
+                println!("replayed violation class={}\n  {}", class, detail);
+            }
+            println!("VIOLATION property={} replay={}", PROP, file);
+            std::process::exit(1);
+        }
         let h = history_from_replay(&doc);
         let rep = run_and_check(&h, &cfg, &oracle, true);
         if let Some(res) = &rep.result {
@@ -826,6 +867,43 @@ fn main() {
         harness_errors.lock().unwrap().push(format!("non-deterministic replay for sub-seeds {:?}", &det_diff[..det_diff.len().min(5)]));
     }
 
+    // end-to-end stage: derives expanded by one real rustc process each (guard off)
+    let stage_n = simcore::env_usize("VERIF_C08_RUSTC", if cmd == "selftest" { 0 } else if tier == "thorough" { 96 } else { 12 });
+    let mut stage_json = json!({"skipped": true});
+    let mut stage_violations: Vec<(String, String, Value)> = vec![];
+    if stage_n > 0 {
+        let hs = rustc_stage::generate_histories(seed, stage_n, &tree);
+        let r = rustc_stage::run(&hs, &cfg.work, &cfg.repo, &rustc_stage::target_dir(&cfg.target));
+        if let Some(e) = &r.harness_error {
+            harness_errors.lock().unwrap().push(format!("rustc stage: {}", e));
+        }
+        stage_json = json!({
+            "what": "sequences of #[derive(GraphQLQuery)] expanded by one real rustc process each through the shipped proc-macro dylib; every derive's error diagnostics compared with the same derive alone in its own rustc process",
+            "rustc_processes_with_a_sequence": r.histories, "derive_expansions_compared": r.derives_checked,
+            "alone_rustc_processes": r.alone_crates, "faulty_derives_in_sequences": r.faulty_derives, "samples": r.samples,
+        });
+        // minimise: drop derives while the same class persists
+        for (class, detail, doc) in r.violations.into_iter().take(2) {
+            let mut derives: Vec<rustc_stage::Derive> = doc["derives"].as_array().unwrap().iter().map(rustc_stage::Derive::from_json).collect();
+            let mut detail = detail;
+            let mut i = 0;
+            let mut attempts = 0;
+            while i < derives.len() && derives.len() > 1 && attempts < 14 {
+                let mut cand = derives.clone();
+                cand.remove(i);
+                attempts += 1;
+                let rr = rustc_stage::run(&[cand.clone()], &cfg.work, &cfg.repo, &rustc_stage::target_dir(&cfg.target));
+                if let Some((_, d2, _)) = rr.violations.iter().find(|(c, _, _)| *c == class) {
+                    derives = cand;
+                    detail = d2.clone();
+                } else {
+                    i += 1;
+                }
+            }
+            stage_violations.push((class, detail, json!({"derives": derives.iter().map(|d| d.to_json()).collect::<Vec<_>>()})));
+        }
+    }
+
     let mut agg = agg.into_inner().unwrap();
     let wall = started.elapsed().as_secs_f64();
 
@@ -858,6 +936,17 @@ fn main() {
         reported.push((class.clone(), path));
     }
 
+    for (k, (class, detail, doc)) in stage_violations.iter().enumerate() {
+        if findings.iter().any(|f| f.status == "known" && f.signature == *class) {
+            *known_hit.entry(class.clone()).or_default() += 1;
+            continue;
+        }
+        let _ = std::fs::create_dir_all(&cfg.replays);
+        let path = cfg.replays.join(format!("{}-rustc-stage-{}.json", PROP, k));
+        let d = json!({"property": PROP, "flavour": "rustc-stage", "violation": {"class": class, "detail": detail}, "derives": doc["derives"], "how_to_replay": format!("./check C08 --replay {}", path.display())});
+        std::fs::write(&path, serde_json::to_string_pretty(&d).unwrap() + "\n").unwrap();
+        reported.push((format!("{} (rustc stage)", class), path));
+    }
     let hours = wall / 3600.0;
     let coverage = json!({
         "evaluations": agg.runs,
@@ -885,6 +974,7 @@ fn main() {
             "simulated": ["choice of the running thread at every cache-lock attempt, at read_file open/read, and between calls", "transient read errors at the read_file fault point"],
             "stubbed": [],
         },
+        "rustc_end_to_end_stage": stage_json,
         "seam": if cfg.hooked.is_some() { "hooked build (--cfg graphql_client_verif)" } else { "unavailable: sequential histories on the guard-off build only" },
         "violation_classes_seen": agg.violations.iter().map(|(_, _, c)| c.clone()).collect::<BTreeSet<_>>(),
         "known_findings_matched": known_hit,
